@@ -43,7 +43,7 @@ func c11SR(c *core.Ctx) {
 	run := GenRun(model, c.R, N, 1, 1, T, 0)
 	desc := NewModel(model).Description()
 	// regimes
-	regime := c.R.Intn(6)
+	regime := c.R.Intn(7)
 	in := run.Inputs[0]
 	iI, iL, iR, iE := indexOf(desc.Inputs, "inflow"), indexOf(desc.Inputs, "lateral"), indexOf(desc.Inputs, "rainfall"), indexOf(desc.Inputs, "evap")
 	switch regime {
@@ -65,6 +65,20 @@ func c11SR(c *core.Ctx) {
 	case 3: // no atmospheric exchange
 		for t := 0; t < T; t++ {
 			in[iE][t], in[iR][t] = 0, 0
+		}
+	case 6: // a trickle creeping past the dead storage of an (almost) empty reach: outflows of 1e-6..1e-2 m3/s
+		q := c.R.LogRange(1e-6, 1e-2)
+		for t := 0; t < T; t++ {
+			in[iI][t] = q * c.R.Range(0.5, 1.5)
+			in[iL][t] = 0
+			in[iR][t], in[iE][t] = 0, 0
+			if c.R.Bool(0.2) {
+				in[iE][t] = c.R.Range(0, 2) // a little evaporation draws the reach back towards its dead storage
+			}
+		}
+		pi := paramIndex(desc, "deadStorage")
+		if run.Sets[0][pi][0] == 0 || c.R.Bool(0.5) {
+			run.Sets[0][pi][0] = c.R.LogRange(1, 1e4)
 		}
 	}
 	hot := c.R.Bool(0.4)
@@ -154,6 +168,10 @@ func c11SR(c *core.Ctx) {
 					c.Violate("sr-relation", model, fmt.Sprintf("t=%d: storage %v implies q*=((S-dead)/k)^(1/m)=%v but outflow=%v (|dq|*dt=%v m3); k=%v m=%v dead=%v", t, s1, qstar, q, d, k, m, dead))
 				}
 			}
+		}
+		if bias == 0 && q > 1e-9 && dead > 0 && s1 < dead-10*srMassBalanceLimit-1e-9*dead {
+			// S = k*Q^m + dead with Q > 0 means S > dead: a positive outflow that leaves less than the dead storage behind
+			c.Violate("sr-outflow-below-dead-storage", model, fmt.Sprintf("t=%d: outflow %v leaves storage %v below the dead storage %v (S0=%v I=%v L=%v E=%v k=%v m=%v)", t, q, s1, dead, s0, I, L, E, k, m))
 		}
 		if q == 0 {
 			c.Tag("sr:zero-outflow-step")
